@@ -172,6 +172,11 @@ func ZZ_C18_boltOps() {
 					zz.Tag("op=Seek,target_absent,later_present")
 					zz.Assert("seek_absent_never_mislabels", nx >= 0 && b.Round == m.e[nx].round && len(b.Signature) == 1 && b.Signature[0] == m.e[nx].sig)
 					zz.Tag("")
+					if kind == 1 && nx >= 0 && b.Round == m.e[nx].round && b.Round > 0 {
+						// the reconstructed previous signature belongs to the round BEFORE the returned one
+						pi := m.find(b.Round - 1)
+						zz.Assert("seek_absent_previous_is_of_the_returned_round", pi >= 0 && len(b.PreviousSig) == 1 && b.PreviousSig[0] == m.e[pi].sig)
+					}
 				}
 				return nil
 			})
